@@ -572,6 +572,95 @@ def translate_terms(path: str) -> tuple[str, dict, list[TranslationError]]:
     return "".join(out), info, errors
 
 
+def translate_optable(path: str) -> tuple[str, list[TranslationError]]:
+    """FunctionFactory._create_operators / _create_functions -> a table of
+    (name, is_function, method, arity, precedence, associativity)."""
+    src = open(path).read()
+    tree = ast.parse(src)
+    errors: list[TranslationError] = []
+    out = [HEADER.format(src=os.path.relpath(path, REPO), sha=hashlib.sha256(src.encode()).hexdigest()[:16]), STRING_HEADER]
+    ff = next((n for n in tree.body if isinstance(n, ast.ClassDef) and n.name == "FunctionFactory"), None)
+    if ff is None:
+        return "", [TranslationError("factory.py:FunctionFactory", "class not found")]
+    # _precedence(importance) = maximum - importance * step
+    prec = find_method(ff, "_precedence")
+    consts = {}
+    try:
+        for st in prec.body:
+            if isinstance(st, ast.Assign) and isinstance(st.targets[0], ast.Name) and isinstance(st.value, ast.Constant):
+                consts[st.targets[0].id] = st.value.value
+        ret = [st for st in prec.body if isinstance(st, ast.Return)][0]
+        if ast.unparse(ret.value) != "maximum - importance * step":
+            raise ValueError(ast.unparse(ret.value))
+        pmax, pstep = int(consts["maximum"]), int(consts["step"])
+    except Exception as e:
+        return "", [TranslationError("factory.py:FunctionFactory._precedence", f"unexpected form: {e}")]
+    # Rule.AND / Rule.OR keyword strings from rule.py
+    rule_keywords = {}
+    rtree = ast.parse(open(os.path.join(os.path.dirname(path), "rule.py")).read())
+    for n in rtree.body:
+        if isinstance(n, ast.ClassDef) and n.name == "Rule":
+            for st in n.body:
+                if isinstance(st, ast.Assign) and isinstance(st.targets[0], ast.Name) and isinstance(st.value, ast.Constant) and isinstance(st.value.value, str):
+                    rule_keywords[st.targets[0].id] = st.value.value
+    rows = []
+    for mname, is_fun in (("_create_operators", False), ("_create_functions", True)):
+        m = find_method(ff, mname)
+        where = f"factory.py:FunctionFactory.{mname}"
+        if m is None:
+            errors.append(TranslationError(where, "method not found"))
+            continue
+        lists = [st.value for st in m.body if isinstance(st, ast.Assign) and isinstance(st.value, ast.List)]
+        if len(lists) != 1:
+            errors.append(TranslationError(where, "expected exactly one list literal"))
+            continue
+        for el in lists[0].elts:
+            try:
+                if not (isinstance(el, ast.Call) and ast.unparse(el.func) == "Function.Element"):
+                    raise ValueError("not a Function.Element(...) call")
+                a0 = el.args[0]
+                if isinstance(a0, ast.Constant):
+                    name = a0.value
+                elif ast.unparse(a0) in ("Rule.AND", "Rule.OR"):
+                    name = rule_keywords[a0.attr]
+                else:
+                    raise ValueError("unexpected name expression")
+                ty = ast.unparse(el.args[2])
+                if ty != ("function_type" if is_fun else "operator_type"):
+                    raise ValueError(f"unexpected type {ty}")
+                method = ast.unparse(el.args[3])
+                kw = {k.arg: k.value for k in el.keywords}
+                arity = kw["arity"].value if "arity" in kw else 0
+                pv = kw.get("precedence")
+                if pv is None:
+                    precedence = 0
+                elif isinstance(pv, ast.Call) and ast.unparse(pv.func) == "p" and isinstance(pv.args[0], ast.Constant):
+                    precedence = pmax - pv.args[0].value * pstep
+                else:
+                    raise ValueError("unexpected precedence form")
+                av = kw.get("associativity")
+                if av is None:
+                    assoc = -1
+                elif isinstance(av, ast.Constant):
+                    assoc = av.value
+                elif isinstance(av, ast.UnaryOp) and isinstance(av.op, ast.USub) and isinstance(av.operand, ast.Constant):
+                    assoc = -av.operand.value
+                else:
+                    raise ValueError("unexpected associativity form")
+                if not isinstance(name, str) or not isinstance(arity, int):
+                    raise ValueError("unexpected name/arity")
+                rows.append((name, is_fun, method, arity, precedence, assoc))
+            except Exception as e:
+                errors.append(TranslationError(where, f"element {ast.unparse(el)[:60]}: {e}"))
+    out.append("From Coq Require Import ZArith.\n")
+    out.append("(* name, is_function, numpy/Op method, arity, precedence, associativity *)\n")
+    out.append("Definition op_table : list (string * bool * string * nat * Z * Z) := [\n")
+    out.append(";\n".join(f'  ("{n}", {str(f).lower()}, "{m}", {a}%nat, ({p})%Z, ({s})%Z)' for n, f, m, a, p, s in rows))
+    out.append("\n].\n")
+    out.append("Definition rule_keywords : list (string * string) := [" + "; ".join(f'("{k}", "{v}")' for k, v in rule_keywords.items()) + "].\n")
+    return "".join(out), errors
+
+
 def write_if_changed(path: str, text: str) -> bool:
     try:
         if open(path).read() == text:
@@ -596,6 +685,10 @@ def run(out_dir: str) -> list[TranslationError]:
     text, info, errs = translate_terms(os.path.join(fl, "term.py"))
     errors += errs
     write_if_changed(os.path.join(out_dir, "GenTerm.v"), text)
+    text, errs = translate_optable(os.path.join(fl, "factory.py"))
+    errors += errs
+    if text:
+        write_if_changed(os.path.join(out_dir, "GenOpTable.v"), text)
     return errors
 
 
